@@ -242,6 +242,104 @@ JParseTrajectory(e, st) ==
   IN  WithDevs(adm, "ParseTrajectory", st)
 
 ----------------------------------------------------------------------------
+(* multi-agent (C15, C16) *)
+
+MembersOfJson(j) == [i \in DOMAIN j |-> CallOfJson(j[i])]
+
+JApplyJoint(e, st) ==
+  LET isExc == Has(e.out, "exc")
+      clean == isExc \/ StJsonClean(e.out.st)
+      members == MembersOfJson(e.members)
+      obsSt == StOfJson(e.out.st)
+      adm(dv) == LET x == JointExp(st[e.d].D, st[e.u].u, members, st[e.s].st, e.allow, Eps, dv)
+                 IN  CASE x.kind = "any" -> TRUE
+                       [] x.kind = "err" -> isExc
+                       [] x.kind = "st"  -> ~isExc /\ StEq(x.st, obsSt) /\ e.out.st.hdr = ":state"
+      s2 == IF isExc THEN st ELSE Put(st, e.h, [kind |-> "state", st |-> obsSt, hdr |-> e.out.st.hdr])
+  IN  IF ~clean THEN Fail("ApplyJoint:unreadable-state-text", st)
+      ELSE WithDevs(adm, IF isExc THEN "ApplyJoint:refused" ELSE "ApplyJoint:successor", s2)
+
+\* a joint plan executed by the multi-agent exporter: one step per joint action, chained
+JointStepOfJson(j) == [pre |-> StOfJson(j.pre), post |-> StOfJson(j.post), op |-> MembersOfJson(j.op),
+                       preHdr |-> j.pre.hdr, postHdr |-> j.post.hdr]
+
+RECURSIVE JointRunOk(_, _, _, _, _, _, _)
+\* every judged step: pre-state chained, post = the joint successor when it is determined
+JointRunOk(D, u, obs, i, cur, allow, dv) ==
+  IF i > Len(obs) THEN TRUE
+  ELSE LET x == JointExp(D, u, obs[i].op, cur, allow, Eps, dv) IN
+       /\ StEq(obs[i].pre, cur)
+       /\ obs[i].preHdr = (IF i = 1 THEN ":init" ELSE ":state") /\ obs[i].postHdr = ":state"
+       /\ x.kind # "err"
+       /\ (x.kind = "st" => StEq(obs[i].post, x.st))
+       /\ JointRunOk(D, u, obs, i + 1, [facts |-> obs[i].post.facts, fl |-> obs[i].post.fl], allow, dv)
+
+\* does the plan contain a step the specification says must be refused?
+RECURSIVE FirstRefused(_, _, _, _, _, _)
+FirstRefused(D, u, plan, i, cur, dv) ==
+  IF i > Len(plan) THEN FALSE
+  ELSE LET x == JointExp(D, u, plan[i], cur, FALSE, Eps, dv) IN
+       IF x.kind = "err" THEN TRUE
+       ELSE IF x.kind = "st" THEN FirstRefused(D, u, plan, i + 1, x.st, dv)
+       ELSE TRUE      \* an undetermined step: what follows cannot be judged, an exception is admitted
+
+JRunJointPlan(e, st) ==
+  LET D == st[e.d].D
+      isExc == Has(e.out, "exc")
+      init == [facts |-> st[e.p].P.init.facts, fl |-> st[e.p].P.init.fl]
+      plan == [i \in DOMAIN e.plan |-> MembersOfJson(e.plan[i])]
+      obs == [i \in DOMAIN e.out.steps |-> JointStepOfJson(e.out.steps[i])]
+      adm(dv) == IF isExc THEN (e.allow \/ FirstRefused(D, st[e.p].u, plan, 1, init, dv))
+                 ELSE /\ Len(obs) = Len(plan)
+                      /\ \A i \in DOMAIN obs : obs[i].op = plan[i]
+                      /\ JointRunOk(D, st[e.p].u, obs, 1, init, e.allow, dv)
+      s2 == IF isExc THEN st ELSE Put(st, e.h, [kind |-> "jrun", steps |-> obs])
+  IN  WithDevs(adm, IF isExc THEN "RunJointPlan:exception" ELSE "RunJointPlan:trajectory", s2)
+
+\* exported joint trajectory: ( state (operators: call call ...) state ... )
+JointTrajOfTree(x) ==
+  LET n == (Len(x.c) - 1) \div 2 IN
+  [ok |-> IsList(x) /\ Len(x.c) % 2 = 1 /\ \A i \in 1..n : HeadSym(x.c[2 * i]) = "operators:",
+   first |-> StateOfTree(x.c[1]),
+   steps |-> [i \in 1..n |-> [op |-> [j \in 1..(Len(x.c[2 * i].c) - 1) |->
+                                          [act |-> HeadSym(x.c[2 * i].c[j + 1]), args |-> SymVals(Rest(x.c[2 * i].c[j + 1]))]],
+                               post |-> StateOfTree(x.c[2 * i + 1])]]]
+
+JExportJointTrajectory(e, st) ==
+  LET run == st[e.r].steps
+      T == JointTrajOfTree(e.out.tree)
+  IN  IF Has(e.out, "exc") THEN Fail("ExportJointTrajectory:exception", st)
+      ELSE IF /\ T.ok /\ Len(T.steps) = Len(run) /\ Len(run) > 0
+              /\ T.first.st.shapeOk /\ ExactEq(StOfParsed(T.first), run[1].pre) /\ T.first.hdr = run[1].preHdr
+              /\ \A i \in DOMAIN run :
+                    /\ T.steps[i].op = run[i].op
+                    /\ T.steps[i].post.st.shapeOk /\ T.steps[i].post.hdr = ":state"
+                    /\ ExactEq(StOfParsed(T.steps[i].post), run[i].post)
+           THEN Ok(st) ELSE Fail("ExportJointTrajectory:text", st)
+
+JParseJointTrajectory(e, st) ==
+  LET run == st[e.r].steps
+      comps == [i \in DOMAIN e.out.comps |-> [pre |-> StOfJson(e.out.comps[i].pre), post |-> StOfJson(e.out.comps[i].post),
+                                              op |-> MembersOfJson(e.out.comps[i].op)]]
+  IN  IF Has(e.out, "exc") THEN Fail("ParseJointTrajectory:exception", st)
+      ELSE IF /\ Len(comps) = Len(run)
+              /\ \A i \in DOMAIN run : comps[i].op = run[i].op /\ ExactEq(comps[i].pre, run[i].pre) /\ ExactEq(comps[i].post, run[i].post)
+              /\ \A i \in 1..(Len(comps) - 1) : ExactEq(comps[i + 1].pre, comps[i].post)
+           THEN Ok(st) ELSE Fail("ParseJointTrajectory", st)
+
+\* C15: any conversion satisfying the five clauses is accepted
+JConvertPlan(e, st) ==
+  LET D == st[e.d].D
+      u == st[e.p].u
+      init == [facts |-> st[e.p].P.init.facts, fl |-> st[e.p].P.init.fl]
+      seqPlan == MembersOfJson(e.plan)
+      agents == e.agents
+      joint == [i \in DOMAIN e.out.joint |-> MembersOfJson(e.out.joint[i])]
+      adm(dv) == IF ~SeqRun(D, u, seqPlan, init, Eps, dv).ok THEN TRUE        \* not a valid sequential plan: outside C15
+                 ELSE ~Has(e.out, "exc") /\ ValidConversion(D, u, seqPlan, joint, agents, init, Eps, dv)
+  IN  WithDevs(adm, IF Has(e.out, "exc") THEN "ConvertPlan:exception" ELSE "ConvertPlan:invalid-conversion", st)
+
+----------------------------------------------------------------------------
 (* exporters (C08, C09): the exported text is read by the independent reader *)
 (* and then by the specification itself; it must denote the same vocabulary  *)
 (* and the same behaviour / the same problem as the source.                  *)
@@ -428,7 +526,7 @@ OpEvent(e, st) == [d |-> st[e.op].d, u |-> st[e.op].u, act |-> st[e.op].act, arg
 SnapOk(h, v, st) ==
   IF h \notin DOMAIN st THEN TRUE
   ELSE IF st[h].kind = "state" THEN StJsonClean(v) /\ ExactEq(st[h].st, StOfJson(v)) /\ v.hdr = st[h].hdr
-  ELSE IF st[h].kind = "run" THEN
+  ELSE IF st[h].kind \in {"run", "jrun"} THEN
          /\ Len(v) = Len(st[h].steps)
          /\ \A i \in DOMAIN v : /\ StJsonClean(v[i].pre) /\ StJsonClean(v[i].post)
                                  /\ ExactEq(StOfJson(v[i].pre), st[h].steps[i].pre) /\ v[i].pre.hdr = st[h].steps[i].preHdr
@@ -458,6 +556,11 @@ Judge(e, st) ==
     [] e.c = "Rename"       -> JRename(e, st)
     [] e.c = "PrintExpr"    -> JPrintExpr(e, st)
     [] e.c = "CmpProbe"     -> JCmpProbe(e, st)
+    [] e.c = "ApplyJoint"   -> JApplyJoint(e, st)
+    [] e.c = "RunJointPlan" -> JRunJointPlan(e, st)
+    [] e.c = "ExportJointTrajectory" -> JExportJointTrajectory(e, st)
+    [] e.c = "ParseJointTrajectory"  -> JParseJointTrajectory(e, st)
+    [] e.c = "ConvertPlan"  -> JConvertPlan(e, st)
     [] e.c = "ExportDomain" -> JExportDomain(e, st)
     [] e.c = "ExportProblem" -> JExportProblem(e, st)
     [] e.c = "CopyState"    -> JCopyState(e, st)
@@ -474,6 +577,12 @@ Explain(e, st) ==
   CASE e.c = "IsApplicable" -> IsApplicable_Exp(st[e.d].D, st[e.u].u, e.act, e.args, st[e.s].st, {})
     [] e.c = "Apply" -> Apply_Exp(st[e.d].D, st[e.u].u, e.act, e.args, st[e.s].st, e.allow, e.skip, {})
     [] e.c = "ParseDomain" -> ParseDomain_Exp(e.tree)
+    [] e.c = "ApplyJoint" -> JointExp(st[e.d].D, st[e.u].u, MembersOfJson(e.members), st[e.s].st, e.allow, Eps, {})
+    [] e.c = "ConvertPlan" -> LET D == st[e.d].D  u == st[e.p].u
+                                  init == [facts |-> st[e.p].P.init.facts, fl |-> st[e.p].P.init.fl]
+                                  joint == [i \in DOMAIN e.out.joint |-> MembersOfJson(e.out.joint[i])]
+                              IN  [seq |-> SeqRun(D, u, MembersOfJson(e.plan), init, Eps, {}),
+                                   joint |-> RunJoint(D, u, joint, init, Eps, {})]
     [] e.c = "Ground" -> LET a == ActionNamed(st[e.d].D, e.act) env == EnvOfCall(a, e.args) IN
          [lits |-> {GroundLit(st[e.d].D, a, env, lt) : lt \in LitsOfF(a.pre)},
           nums |-> {[c EXCEPT !.l = GroundExpr(c.l, env, FALSE), !.r = GroundExpr(c.r, env, FALSE)] : c \in CmpsOfF(a.pre)},
